@@ -18,6 +18,10 @@ NA = {
 }
 
 CHECKS = {
+ "C14": dict(level="exploration", ref="DESIGN.md section 4 (C14)",
+   text="Seeded search over import graphs (chains, DAGs, diamonds, self-loops, 2-/3-cycles, mixtures; import sites at module top level, under alias, inside try, inside functions called later, inside fibers) x a simulated file system behind the module-loader seam (per read: ok, not found, read error with every reason string of the default loader, garbled, truncated at a statement boundary, transient) x injected failures inside module bodies x a decision tape that chooses at run time what the driver imports, calls, mutates, and which half-loaded module it suspends inside a fiber and imports meanwhile. The real compiler+VM run in checked and release builds; the full event history and the number of file reads per module must equal a module-system reference model; independently of the model no module body may run twice. A clean batch is evidence, not proof.",
+   note="Trusted: the module-system reference model, the runner's loader/printer seams. Open by the property (import of a module whose body failed part-way): executed, must not crash or re-run the body, not compared (counted).",
+   technique="deterministic simulation with fault injection: simulated file system with per-read faults behind the module-loader seam, tape-driven import schedule incl. suspension mid-load, reference-model history equality"),
  "C15": dict(level="fault_enumeration", ref="DESIGN.md section 4 (C15)",
    text="Seeded generation of REPL-style sessions on one interpreter; within each session every single crash point (each dynamic fault point of the crash-free run fails once: top level, nested calls, methods, fibers, nested fibers, try/finally, imported module bodies) is enumerated when the session has <= 30 of them, plus sampled multi-crash plans, uncaught throws at several depths, non-compiling snippets and Vm::reset as generated operations; each plan runs in the checked and release builds and is compared snippet-by-snippet with a session reference model, and the suffix after the last reset is replayed on a fresh interpreter (model-free metamorphic check). Evidence, not proof: sessions are sampled.",
    note="Trusted: the session model and the runner's seams. Left open by the property and therefore executed without comparison (counted): later use of fibers that were active when a snippet failed, re-import of a module whose body failed.",
